@@ -35,7 +35,7 @@ package metadata
 
 // every anchored operation yields exactly one unpublished entry, in anchoring order, fields one to one
 //@ func getUnpublishedOperations(ops) (ret)
-//@   requires forall i int :: 0 <= i && i < len(ops) ==> ops[i] != nil
+//@   requires forall i int :: 0 <= i && i < len(ops) ==> ops[i] != nil && allocated(ops[i])
 //@   modifies elems(ops)
 //@   ensures [length] len(ret) == len(ops)
 //@   ensures [fields] forall i int :: 0 <= i && i < len(ops) ==> ret[i] != nil && ret[i].Type == ops[i].Type &&
@@ -88,7 +88,7 @@ package metadata
 //@ func (t *Metadata) CreateDocumentMetadata(rm, info) (ret, err)
 //@   requires t != nil
 //@   requires rm != nil ==> (forall i int :: 0 <= i && i < len(rm.PublishedOperations) ==> rm.PublishedOperations[i] != nil) &&
-//@        (forall i int :: 0 <= i && i < len(rm.UnpublishedOperations) ==> rm.UnpublishedOperations[i] != nil)
+//@        (forall i int :: 0 <= i && i < len(rm.UnpublishedOperations) ==> rm.UnpublishedOperations[i] != nil && allocated(rm.UnpublishedOperations[i]))
 //@   requires info != nil && has(info, "published") ==> typeis(info["published"], bool)
 // the two operation lists are separate slices (both are sorted in place)
 //@   requires rm != nil ==> !sameArray(rm.PublishedOperations, rm.UnpublishedOperations) || len(rm.PublishedOperations) == 0 || len(rm.UnpublishedOperations) == 0
